@@ -1,3 +1,4 @@
 pub mod common;
 pub mod c01;
 pub mod c02;
+pub mod c03;
